@@ -38,7 +38,11 @@ pub struct Case {
 }
 
 pub fn extreme_felt(sel: u8) -> Felt {
-    match sel % 12 {
+    match sel % 16 {
+        12 => Felt::from(1u64 << 63),
+        13 => Felt::from((1u64 << 63) - 1),
+        14 => Felt::from(1u64 << 32),
+        15 => Felt::from((1u64 << 31) + 1),
         0 => Felt::ZERO,
         1 => Felt::ONE,
         2 => Felt::TWO,
@@ -55,7 +59,10 @@ pub fn extreme_felt(sel: u8) -> Felt {
 }
 
 pub fn extreme_u64(sel: u8) -> u64 {
-    match sel % 9 {
+    match sel % 12 {
+        9 => 1 << 63,
+        10 => (1 << 63) - 1,
+        11 => 1 << 32,
         0 => 0,
         1 => 1,
         2 => 2,
